@@ -1,7 +1,8 @@
 """composeinfo variant forest: add histories, lookups, get_variants vs Model/Variants.v"""
 from suites.common import reflect
 
-ARCHSETS = [["x86_64"], ["x86_64", "ppc64le"], ["ppc64le"], ["x86_64", "ppc64le", "aarch64"], ["aarch64"], []]
+ARCHSETS = [["x86_64"], ["x86_64", "ppc64le"], ["ppc64le"], ["x86_64", "ppc64le", "aarch64"], ["aarch64"], [],
+            ["src"], ["x86_64", "src"], ["noarch"], ["x86_64", "nosrc"]]
 TYPES = ["variant", "optional", "addon", "layered-product"]
 
 
@@ -20,7 +21,7 @@ def gen_pool(rng):
             if k < 0.65:
                 ca = rng.sample(ta, rng.randint(1, len(ta)))
             elif k < 0.85:
-                ca = rng.choice(ARCHSETS)                      # possibly foreign / empty
+                ca = rng.choice(ARCHSETS)                      # possibly foreign (incl. the pseudo-architectures) / empty
             else:
                 ca = ta
             cuid = "%s-%s" % (t, cid) if rng.random() < 0.85 else rng.choice([cid, "%s_%s" % (t, cid), "X-%s" % cid])
